@@ -1,10 +1,4 @@
-mod ast;
-mod engine;
-mod gen;
-mod model;
-mod props;
-mod real;
-mod val;
+use harness::{engine, props};
 
 use engine::*;
 use std::collections::BTreeSet;
